@@ -436,14 +436,28 @@ func c15(run *ev.Run, tier string) {
 		ndir := newWorkDir("c15-names")
 		src := filepath.Join(ndir, "p.txt")
 		_ = os.WriteFile(src, []byte("p\n"), 0o644)
-		for _, name := range []string{"my pkg", "-lead", ".dot", "pkg\u00e9", "UPPER_case", "a/b", "plus+plus", "at@sign"} {
-			s := &gen.Spec{Name: name, Arch: "amd64", Version: "1.0.0", Maintainer: "N <n@example.com>", Description: "d", MTime: 1500000000}
+		type unusual struct {
+			name, release, platform, arch, debArch string
+		}
+		var specs []unusual
+		for _, name := range []string{"my pkg", "-lead", ".dot", "pkg\u00e9", "UPPER_case", "a/b", "plus+plus", "at@sign", "100%free", "pct%s%d"} {
+			specs = append(specs, unusual{name: name, arch: "amd64"})
+		}
+		specs = append(specs, unusual{name: "pctrel", release: "1%d%s", arch: "amd64"}, unusual{name: "pctrel2", release: "2%", arch: "amd64"},
+			// a platform next to an architecture that already begins with it
+			unusual{name: "plat", platform: "kfreebsd", arch: "amd64", debArch: "kfreebsd-amd64"}, unusual{name: "plat2", platform: "hurd", arch: "hurd-i386"},
+			unusual{name: "plat3", platform: "darwin", arch: "darwin-arm64", debArch: "darwin-arm64"})
+		for _, u := range specs {
+			name := u.name
+			s := &gen.Spec{Name: name, Arch: u.arch, Version: "1.0.0", Release: u.release, Platform: u.platform, Maintainer: "N <n@example.com>", Description: "d", MTime: 1500000000}
+			s.Deb.Arch = u.debArch
 			s.RPM.BuildHost = "verif-host"
 			s.Contents = []*gen.Content{{Src: src, Dst: "/opt/names/p.txt"}}
 			y := s.YAML()
 			for _, f := range formats {
 				run.Case("name-asked-before-packaging-unusual-name|"+name+"|"+f, true)
 				var outs [2]buildResult
+				fileName := ""
 				for k := 0; k < 2; k++ {
 					cfg, err := parseYAML(y, nil)
 					if err != nil {
@@ -457,10 +471,17 @@ func c15(run *ev.Run, tier string) {
 					}
 					if k == 1 {
 						if pk, err := nfpm.Get(f); err == nil {
-							_ = pk.ConventionalFileName(info)
+							fileName = pk.ConventionalFileName(info)
 						}
 					}
 					outs[k] = packageInfo(f, info)
+				}
+				if outs[1].Err == nil && outs[1].Panic == "" {
+					if pk := dec.Decode(f, outs[1].Bytes, false); len(pk.Errs) == 0 {
+						if want := nameFromMetadata(f, pk); fileName != want {
+							run.Violate("C15/"+f+"/file-name-vs-metadata/unusual-name", map[string]any{"name": name, "release": u.release, "platform": u.platform, "arch": u.arch, "deb_arch": u.debArch, "file_name": fileName, "from_metadata": want})
+						}
+					}
 				}
 				failed := func(r buildResult) bool { return r.Err != nil || r.Panic != "" }
 				if failed(outs[0]) != failed(outs[1]) || (!failed(outs[0]) && !bytes.Equal(outs[0].Bytes, outs[1].Bytes)) {
